@@ -108,9 +108,23 @@ def _second_opinion(mod, prop, a, seed, run, out, err):
             # findings located in a helper whose every call was inlined are duplicates of what the rule says (or does not
             # say) about the same statements in the callers
             dup = set(st.get("fully_inlined", []))
+            into = st.get("inlined_into", {})
+
+            def related(q):
+                out, todo = {q}, [q]
+                while todo:
+                    for c in into.get(todo.pop(), []):
+                        if c not in out:
+                            out.add(c)
+                            todo.append(c)
+                return out
+
             v2 = [v for v in r2.violations if qual(v["where"]) not in dup]
             bad2 = {(v["rule"], v["key"]) for v in v2} | {(v["rule"], qual(v["where"])) for v in v2}
-            dropped = [v for v in run.violations if (v["rule"], v["key"]) not in bad2 and (v["rule"], qual(v["where"])) not in bad2
+            # a finding located in a helper stands when the normal form shows a finding of the same rule in any function
+            # that received the helper's statements
+            dropped = [v for v in run.violations if (v["rule"], v["key"]) not in bad2
+                       and not any((v["rule"], q) in bad2 for q in related(qual(v["where"])))
                        and n2.get(v["rule"], 0) >= n1.get(v["rule"], 0)]
             cleared = sorted({v["rule"] for v in dropped})
             if cleared:
@@ -121,9 +135,9 @@ def _second_opinion(mod, prop, a, seed, run, out, err):
                         k["where"] = normalize.remap_where(vdir, k["where"])
                         run.known.append(k)
                 run.assume(f"rule(s) {cleared}: shape not recognised in the source as written, decided on the {'+'.join(passes)} normal form")
-                notes.append({**st, "status": f"cleared {cleared}", "cleared": [{k: v[k] for k in ('rule', 'where', 'message')} for v in dropped]})
+                notes.append({**{k: v for k, v in st.items() if k not in ("inlined_into", "fully_inlined")}, "status": f"cleared {cleared}", "cleared": [{k: v[k] for k in ('rule', 'where', 'message')} for v in dropped]})
             else:
-                notes.append({**st, "status": "same findings"})
+                notes.append({**{k: v for k, v in st.items() if k not in ("inlined_into", "fully_inlined")}, "status": "same findings"})
         finally:
             shutil.rmtree(vdir, ignore_errors=True)
     run.extra["normal_forms"] = notes
